@@ -229,7 +229,12 @@ def run_client(asyncio_, plan):
         for ev in ('connect', 'disconnect', 'connect_error'):
             w.c.on(ev, handler(ev + ns), namespace=ns)
         w.c.on('ev', handler('ev' + ns, ('r', 0)), namespace=ns)
-    w.connect(['/', '/a'])
+    calls_to_auth = []
+
+    def auth():
+        calls_to_auth.append(1)
+        return {'token': len(calls_to_auth)}
+    w.connect(['/', '/a'], auth=auth)
     ids = {}
 
     def api(tag, thunk):
